@@ -10,12 +10,28 @@
     core/workflow/{aggregator,task,call}role.go  ProcessTemplates: `for k, v := range Locals { Vars.Set(k, v) }`
     core/workflow/aggregator.go       GetRoles(): iterator roles are spliced out, their instances are siblings
     core/workflow/callable/call.go    Call: parentRole.SetRuntimeVar(returnVar, output)
+    core/workflow/includerole.go      ProcessTemplates: own stages, Locals → Vars, loadSubworkflow(include, r) (the loaded
+                                      root's three maps are wrapped around the include role's), then
+                                      `r.aggregatorRole = *subWfRoot` (roleBase — Locals and the three maps included —
+                                      replaced; only parent and Name are restored), then aggregatorRole.ProcessTemplates
+    core/workflow/load.go             loadSubworkflow: fresh root, yaml.Unmarshal, root.setParent(parent)
 
   A role tree is a `Forest` in first-child / next-sibling form (one plain
   inductive type: structural recursion and `induction` work). A role is
   addressed by the child indices from the owner of the forest downwards
   (`[0]` = the root of a workflow, `[0, 2]` its third child …), exactly the
-  positions `GetRoles()` yields. Core Lean only.
+  positions `GetRoles()` yields.
+
+  INCLUDE ROLES. `include: <workflow>` on a role loads that workflow's root and makes the
+  include role BE that root: after `r.aggregatorRole = *subWfRoot` the role's Defaults / Vars /
+  UserVars / Locals are the loaded root's; the maps written at the include SITE (the role's own
+  `defaults:` / `vars:` in the including file, plus the iterator Locals published into its Vars
+  just before) survive only as the parents of the loaded root's maps — one more LEVEL of the
+  hierarchy between the role and its parent, which no role API reaches any more. In the forest a
+  site is a node with `site := true` whose single child is the loaded root (the include role
+  proper): `chainAt` / `pathOf` pass through it like through any level, `preorder` (the ROLES of
+  the tree) skips it, and an address steps over it with index 0. Everything else — expansion,
+  writes, replay — treats it like any other node. Core Lean only.
 -/
 import ControlModel.Model.Vars
 
@@ -32,6 +48,10 @@ structure Node where
   own : Level
   locals : KV
   task : Bool
+  /-- the SITE of an include role: the maps written at `include:` in the including workflow. After the
+      load it is a level between the include role (its single child here: the included workflow's root,
+      with the include role's name and parent) and that role's parent — not a role of its own. -/
+  site : Bool := false
   deriving Repr, Inhabited
 
 /-- Sibling roles after load. -/
@@ -50,7 +70,8 @@ inductive TForest where
 
 /-- What ProcessTemplates leaves in an instance generated for `var = val`:
     `Locals[var] = val`, then `Vars.Set(var, val)` — every other map is the
-    template's (a private copy). -/
+    template's (a private copy). For an include role the `Vars` written are the SITE's (the loop
+    runs before the role's maps are replaced by the loaded root's): `n` is the site node then. -/
 def withIter (n : Node) (var val : String) : Node :=
   { n with own := { n.own with vars := set n.own.vars var val } }
 
@@ -66,6 +87,50 @@ def expand : TForest → Forest
   | .nil => .nil
   | .role n kids next => .role n (expand kids) (expand next)
   | .iter var vals n kids next => instances var n (expand kids) (expand next) vals
+
+/-! ## the load, step by step (what each kind of role does with its iterator Locals) -/
+
+/-- Where `for k, v := range r.Locals { r.Vars.Set(k, v) }` stands in the four ProcessTemplates. -/
+structure LoadCfg where
+  /-- aggregator / task / call roles: after the role's own template stages (for an aggregator: before
+      it descends into its children) -/
+  plainPublishes : Bool
+  /-- include roles: after the role's own template stages and BEFORE the composed aggregatorRole is
+      replaced by the loaded root — i.e. into the SITE's Vars. (Afterwards `r.Locals` and `r.Vars` are
+      the loaded root's: the loop in aggregatorRole.ProcessTemplates, which runs next, iterates the
+      loaded root's empty Locals.) -/
+  sitePublishesBeforeSwap : Bool
+  deriving Repr, DecidableEq, Inhabited
+
+/-- The code as it is (tied by `C14_load_is_code`). -/
+def codeLoad : LoadCfg := { plainPublishes := true, sitePublishesBeforeSwap := true }
+
+/-- NOT the code: the include role leaves the loop to aggregatorRole.ProcessTemplates. -/
+def lateLoad : LoadCfg := { plainPublishes := true, sitePublishesBeforeSwap := false }
+
+def LoadCfg.publishes (cfg : LoadCfg) (n : Node) : Bool :=
+  if n.site then cfg.sitePublishesBeforeSwap else cfg.plainPublishes
+
+/-- generateRole (copy + `Locals[var] = val`) followed by the role's ProcessTemplates: the Locals
+    reach a map of the hierarchy only through the publishing loop. -/
+def instantiate (cfg : LoadCfg) (n : Node) (var val : String) : Node :=
+  if cfg.publishes n then withIter n var val else n
+
+def instancesWith (cfg : LoadCfg) (var : String) (n : Node) (kids rest : Forest) : List String → Forest
+  | [] => rest
+  | v :: vs => .role (instantiate cfg n var v) kids (instancesWith cfg var n kids rest vs)
+
+/-- MECHANISM of the load for either placement of the loop; `load codeLoad = expand`. -/
+def load (cfg : LoadCfg) : TForest → Forest
+  | .nil => .nil
+  | .role n kids next => .role n (load cfg kids) (load cfg next)
+  | .iter var vals n kids next => instancesWith cfg var n (load cfg kids) (load cfg next) vals
+
+/-- No iterator of the template has an include role as its template. -/
+def noIteratedSite : TForest → Bool
+  | .nil => true
+  | .role _ kids next => noIteratedSite kids && noIteratedSite next
+  | .iter _ _ n kids next => !n.site && noIteratedSite kids && noIteratedSite next
 
 abbrev Addr := List Nat
 
@@ -126,11 +191,13 @@ def applyWrite (t : Forest) (w : Write) : Forest := updAt w.op.apply t w.target
 /-- The history: writes in the order they happened. -/
 def applyWrites (t : Forest) (ws : List Write) : Forest := ws.foldl applyWrite t
 
-/-- Pre-order addresses of the roles of a forest whose first tree has index `idx` under `pre`. -/
+/-- Pre-order addresses of the ROLES of a forest whose first tree has index `idx` under `pre`: an
+    include site is a step of an address but no role (what `GetRoles()` yields at the include role are
+    the loaded root's children). -/
 def preorder : Forest → Nat → Addr → List Addr
   | .nil, _, _ => []
-  | .role _ kids next, idx, pre =>
-      (pre ++ [idx]) :: (preorder kids 0 (pre ++ [idx]) ++ preorder next (idx + 1) pre)
+  | .role n kids next, idx, pre =>
+      (if n.site then [] else [pre ++ [idx]]) ++ (preorder kids 0 (pre ++ [idx]) ++ preorder next (idx + 1) pre)
 
 /-- The role description the observation model (`modelObs`) takes, from the
     chain root→role: the path is the role, its ancestors, then the environment. -/
